@@ -443,6 +443,9 @@ type dispatcher interface {
 }
 
 // setup starts server and client for one interface inside the running execution.
+// clientIdle: idle timeout of the client connections built by the next setup (0: the default, 10 min)
+var clientIdle time.Duration
+
 func setup(i *Iface, fc filterCfg, pool int32) *system {
 	tars.VerifNewApp()
 	flog := &[]string{}
@@ -457,7 +460,7 @@ func setup(i *Iface, fc filterCfg, pool int32) *system {
 		panic(err)
 	}
 	vm.GoNamed("serve", func() { ts.Serve() })
-	comm := tars.VerifNewCommunicator(tars.VerifClientOpts{KeepApp: true, AsyncInvokeTimeout: 2000, ReadTimeout: 3 * time.Second, CheckStatusInterval: 60000})
+	comm := tars.VerifNewCommunicator(tars.VerifClientOpts{KeepApp: true, AsyncInvokeTimeout: 2000, ReadTimeout: 3 * time.Second, CheckStatusInterval: 60000, IdleTimeout: clientIdle})
 	prx := i.NewProxy()
 	comm.StringToProxy("App.Srv.Obj@tcp -h 127.0.0.1 -p 9400 -t 60000", prx.(tars.ProxyPrx))
 	return &system{sv: sv, prx: prx, flog: flog, iface: i, comm: comm}
